@@ -53,8 +53,8 @@ Definition p_wfault (a : args) : list (list Z) :=
    out  : [file] [H: H_i = hash of the first i written rows, i = 0..N] [cumulative rows per batch, from 0]
           then one entry per k: [outcome 0 = clean end / 1 = Err] [batches decoded] [rows decoded]
           [hash of the rows decoded]
-   class: 0 parquet (footer), 1 IPC file (footer), 2 IPC stream, 3 Avro OCF (block prefix),
-          4 JSON lines (row prefix) *)
+   class: 0 parquet (footer), 1 IPC file (footer), 2 IPC stream (StreamReader), 3 Avro OCF (block prefix),
+          4 JSON lines (row prefix), 6 IPC stream through the push-based StreamDecoder *)
 Definition tail_code (t : tail) : Z := match t with End => 0%Z | Err => 1%Z end.
 
 Definition trunc_one (cls : nat) (file H cum : list Z) (k : nat) (outcome nb nr h : Z) : bool :=
@@ -75,6 +75,8 @@ Definition trunc_one (cls : nat) (file H cum : list Z) (k : nat) (outcome nb nr 
                | Some (n, t) => (nb =? Z.of_nat n)%Z && (outcome =? tail_code t)%Z && (nr =? nth n cum (-1)%Z)%Z
                end
     | 3%nat => existsb (Z.eqb nr) cum
+    | 6%nat => let '(n, t) := push_read pre in
+               (nb =? Z.of_nat n)%Z && (outcome =? tail_code t)%Z && (nr =? nth n cum (-1)%Z)%Z
     | _ => true
     end.
 
